@@ -294,6 +294,17 @@ pub fn iresult(t: &mut Toks) -> Vec<i128> {
 					let okv = v.iter().zip(vals.iter()).all(|(a, b)| a.to_bits() == b.to_bits());
 					let oks = sg.iter().zip(sigs.iter()).all(|(a, b)| a == b);
 					out.push((okv && oks) as i128);
+					// the indexed accessors: value(i) / signal(i) return the i-th element of the slice for an announced index and
+					// panic (documented) for any other index
+					let mut acc = 1;
+					for i in 0..6usize {
+						let gv = catch(|| r.value(i));
+						let gs = catch(|| r.signal(i));
+						let okv = match gv { Some(x) => i < v.len() && x.to_bits() == v[i].to_bits(), None => i >= v.len() };
+						let oks = match gs { Some(a) => i < sg.len() && a == sg[i], None => i >= sg.len() };
+						if !(okv && oks) { acc = 0; }
+					}
+					out.push(acc);
 				}
 			}
 		}
